@@ -72,6 +72,27 @@ Theorem C10_paging : forall A (l : list A) lim n, (0 < lim)%nat -> (List.length 
   List.concat (map (page lim l) (seq 0 n)) = l.
 Proof. exact paging_complete. Qed.
 
+(* a filter (idShort) is applied to the listing BEFORE it is paged: the k-th page of a filtered listing of submodels /
+   shells is the k-th page of the matching objects, and the pages together are exactly the matching objects *)
+Theorem C10_filtered_page_submodels : forall s lim k q,
+  q_semid q = None ->
+  q_limit q = QNat lim -> q_cursor q = (match k with O => QAbsent | _ => QNat (k * lim) end) ->
+  get_submodels s q = Ok (page lim (filter (fun x => ids_match (q_idshort q) (sm_ids x)) (sms_of s)) k, ((k * lim) + lim)%nat).
+Proof. exact get_submodels_filtered_page. Qed.
+Theorem C10_filtered_page_shells : forall s lim k q,
+  q_assetids q = [] ->
+  q_limit q = QNat lim -> q_cursor q = (match k with O => QAbsent | _ => QNat (k * lim) end) ->
+  get_shells s q = Ok (page lim (filter (fun x => ids_match (q_idshort q) (sh_ids x)) (shells_of s)) k, ((k * lim) + lim)%nat).
+Proof. exact get_shells_filtered_page. Qed.
+Example C10_filtered_page_example :
+  (q_semid (filter_query 1) = None) /\
+  (map (fun k => match get_submodels filter_state (filter_query k) with Ok (l, c) => (map sm_id l, c) | Exc _ => ([], 0%nat) end) [0; 1; 2]%nat
+   = [([1], 1%nat); ([3], 2%nat); ([], 3%nat)]).
+Proof. exact filtered_page_example. Qed.
+Theorem C10_filtered_paging : forall A (f : A -> bool) (l : list A) lim n, (0 < lim)%nat -> (List.length l <= n * lim)%nat ->
+  List.concat (map (page lim (filter f l)) (seq 0 n)) = filter f l.
+Proof. exact filtered_paging_complete. Qed.
+
 (* every handler that changes live objects commits them (finite check over the generated call
    table), so on a backed store the change is what the next request reads *)
 Theorem C10_mutators_commit : forall fn s s', In fn mutators -> persist fn s s' = s'.
